@@ -293,6 +293,9 @@ func (w *vfWorld) prepareStep(st vfStep) *vfPrepared {
 		case "wrong":
 			pw = "wrong-" + st.User
 		}
+		if strings.HasPrefix(pw, "of:") {
+			pw = w.dirsim.Password[pw[3:]] // somebody else's current password
+		}
 		in.LoginUser, in.LoginPw = st.User, pw
 		r := w.baseReq(s, "POST", "/api/v0/login")
 		delete(r.Cookies, authCookieName)
